@@ -306,3 +306,21 @@ def one(ctx, name, build, proved, ms, models, stream):
     elif problems:
         rep.update({"broken": problems})
         ctx.report("generated-model tie of %s no longer checks (%s); the statement held on every instance tried" % (name, problems[0][:300]), rep, concrete=False)
+
+
+def replay(ctx, body):
+    """re-evaluates the statement on the instance stream the report came from (the instance of the report is described in the file)"""
+    common.setup_env()
+    name = body["generated_model"]
+    if name not in STATEMENT:
+        print("nothing to replay for", name, "; broken:", body.get("broken")); return False
+    models, stream = (kpc_models, "genenc-kpc") if name == "encode_kpc" else (kfd_models, "genenc-kfd")
+    for sfx in ("", "-search"):
+        for m, desc in models(ctx, 36 if not sfx else 150, stream + sfx):
+            ids = e1.ids_of(m.G); want = spec(name, m, ids)
+            if want is None: continue
+            d = differs(real(name, m, ids), want)
+            if d:
+                print("statement violated now on", desc, ":", d[:2]); return True
+    print("the statement holds on the instance stream now")
+    return False
